@@ -27,6 +27,12 @@ class ConfigBackedParser(argparse.ArgumentParser):
         try:
             defs = get_defaults_for_argparse(entrypoint)
             ignore = defs.pop('Ignore', None)
+            if ' ' in self.prog:
+                # A subparser only takes defaults for the options it defines
+                # itself: argparse copies a subparser's defaults over what
+                # its parent parsed, which would undo a flag given there.
+                known = set(a.dest for a in self._actions)
+                defs = {k: v for k, v in defs.items() if k in known}
             self.set_defaults(**defs)
             if ignore:
                 set_notebook_diff_ignores(ignore)
